@@ -336,10 +336,8 @@ impl Wallet {
                     tx_index += 1;
                 }
 
-                if block.id >= genesis_period {
-                    // (an output of block b is refused as an input once the tip has reached b + genesis_period:
-                    // with this block as tip, the oldest block whose outputs can still be spent is the next one)
-                    self.remove_old_slips((block.id - genesis_period).saturating_add(1));
+                if block.id > genesis_period {
+                    self.remove_old_slips(block.id - genesis_period);
                 }
             }
         } else {
